@@ -7,7 +7,7 @@ for those steps equal the model's; the walk therefore stops after the first step
 implementation output differs from the model's.  The step itself is judged by necessary
 conditions of the property evaluated on that pre-state and on the IMPLEMENTATION's events. -/
 namespace Pko.Drv.SysMon
-open Pko.Kube Pko.Model.Phase Pko.Model.ObjectSet Pko.Drv.PhaseCommon Pko.Drv.SysCommon
+open Pko.Kube Pko.Model.Phase Pko.Model.ObjectSet Pko.Model.Status Pko.Drv.PhaseCommon Pko.Drv.SysCommon
 
 structure StepOut where
   res : String
